@@ -300,3 +300,40 @@ void harness_any_scan(void) {
   verif_check(p.private_impl.f_count == count, "scan/tail-sum");
   verif_reach("any/done");
 }
+
+// ---- io_reader.match7: peek-like prefix match on every number of readable bytes ----
+// The readable bytes end exactly at the end of their object. Result: 0 match, 2 mismatch,
+// 1 inconclusive (too few bytes and the source is not closed), as the helper's comment states.
+#define M7_MAX 10
+void harness_match7(void) {
+  uint8_t mem[M7_MAX];
+  for (int i = 0; i < M7_MAX; i++) mem[i] = nondet_u8();
+  uint64_t avail = nondet_u64();
+  verif_assume(avail <= M7_MAX);
+  avail = verif_conc(avail);
+  uint64_t a = nondet_u64();
+  // prefix lengths 1..7, as every caller in std/ passes (constants). With n == 0 and 8 readable bytes
+  // the helper evaluates a << 64 (undefined in C): recorded in DESIGN.md as an observation, not as a
+  // violation of this property, because no standard-library decoder can reach it.
+  verif_assume((a & 7) != 0);
+  uint64_t n = verif_conc(a & 7);
+  const uint8_t* iop = mem + (M7_MAX - avail);
+  const uint8_t* io2 = mem + M7_MAX;
+  wuffs_base__io_buffer r = wuffs_base__ptr_u8__reader(mem, M7_MAX, false);
+  r.meta.closed = nondet_u8() & 1;
+  int with_r = nondet_u8() & 1;
+  uint32_t got = wuffs_private_impl__io_reader__match7(iop, io2, with_r ? &r : NULL, a);
+  uint32_t want = 0;
+  for (uint64_t i = 0; i < n; i++) {
+    if (i >= avail) {
+      want = (with_r && r.meta.closed) ? 2 : 1;
+      break;
+    }
+    if (iop[i] != (uint8_t)(a >> (8 * (i + 1)))) {
+      want = 2;
+      break;
+    }
+  }
+  verif_check(got == want, "match7/result");
+  verif_reach("match7/done");
+}
